@@ -423,10 +423,16 @@ def textFromEventDict(eventDict: EventDict) -> Optional[str]:
     if not edm:
         if eventDict["isError"] and "failure" in eventDict:
             why = cast(str, eventDict.get("why"))
-            if why:
+            try:
+                if why:
+                    why = reflect.safe_str(why)
+                else:
+                    why = "Unhandled Error"
+            except KeyboardInterrupt:
+                raise
+            except BaseException:
+                # Even asking whether there is a "why" can fail.
                 why = reflect.safe_str(why)
-            else:
-                why = "Unhandled Error"
             try:
                 traceback = cast(failure.Failure, eventDict["failure"]).getTraceback()
             except KeyboardInterrupt:
